@@ -2,6 +2,7 @@ package dbh
 
 import (
 	"bytes"
+	"encoding/binary"
 	"fmt"
 	"strings"
 
@@ -135,7 +136,9 @@ func (r *Runner) DumpKBytes(rnd *vlib.RNG, maxBytes int) (cs string, st KBytesSt
 		ask(k, seq, func(k []byte) ([]byte, error) { return r.DB.Get(k, nil) })
 	}
 	ask([]byte("\x02absent"), seq, func(k []byte) ([]byte, error) { return r.DB.Get(k, nil) })
-	// the user keys at the table boundaries (level search, imin/imax tests) and their neighbours
+	// the table boundaries (level search, imin/imax tests): the boundary user keys and their neighbours at the
+	// current sequence number, and the boundary entries themselves probed at their own sequence number and
+	// one below (DB.get at an arbitrary sequence number through the verif export)
 	nb := 0
 	for _, t := range v1 {
 		if nb >= 6 {
@@ -144,8 +147,13 @@ func (r *Runner) DumpKBytes(rnd *vlib.RNG, maxBytes int) (cs string, st KBytesSt
 		for _, ik := range [][]byte{t.Imin, t.Imax} {
 			if len(ik) >= 8 && rnd.Chance(1, 2) {
 				uk := append([]byte(nil), ik[:len(ik)-8]...)
+				es := binary.LittleEndian.Uint64(ik[len(ik)-8:]) >> 8
 				ask(uk, seq, func(k []byte) ([]byte, error) { return r.DB.Get(k, nil) })
-				ask(append(uk, 0), seq, func(k []byte) ([]byte, error) { return r.DB.Get(k, nil) })
+				ask(append(append([]byte(nil), uk...), 0), seq, func(k []byte) ([]byte, error) { return r.DB.Get(k, nil) })
+				ask(uk, es, func(k []byte) ([]byte, error) { return leveldb.VerifGetAt(r.DB, k, es) })
+				if es > 0 {
+					ask(uk, es-1, func(k []byte) ([]byte, error) { return leveldb.VerifGetAt(r.DB, k, es-1) })
+				}
 				nb++
 			}
 		}
